@@ -295,7 +295,44 @@ func runFltNil(c *core.Ctx) {
 		c.CountFuncs(1)
 		nilTests := map[string]int{}
 		lenTests := map[string][]string{}
+		ranged := map[string]bool{}
+		var groupLenTests []string
+		for _, rf := range an.RefClosure([]*ssa.Function{s.fn}, P.InModule) {
+			an.Instrs(rf, func(in0 ssa.Instruction) {
+				// the keys built from one condition, dropped or skipped when there are none (`len(keys) == 0`):
+				// the same confusion one step later — a condition that is present with an empty list has an
+				// empty key group and must empty the intersection, not vanish from it
+				if b, isB := in0.(*ssa.BinOp); isB {
+					for _, side := range []ssa.Value{b.X, b.Y} {
+						other := b.Y
+						if side == b.Y {
+							other = b.X
+						}
+						lc, isCall := side.(*ssa.Call)
+						if !isCall || len(lc.Call.Args) != 1 {
+							continue
+						}
+						if bi, isBI := lc.Call.Value.(*ssa.Builtin); !isBI || bi.Name() != "len" {
+							continue
+						}
+						if sl, isSl := lc.Call.Args[0].Type().Underlying().(*types.Slice); isSl && typeNameOf(sl.Elem()) == "eventCacheEvsIndexKey" {
+							if k, isK := an.ConstInt(other); isK && k == 0 {
+								groupLenTests = append(groupLenTests, P.Pos(b.Pos()))
+							}
+						}
+					}
+				}
+			})
+		}
+		if len(groupLenTests) > 0 {
+			c.Bad(s.props, fname(c, s.fn), "presence(key-group)", groupLenTests[0], "the key group of one condition is tested by its length: a condition that is present with an empty list ({\"authors\":[]}, must match nothing) is dropped like an absent one, and the remaining conditions alone decide")
+		}
 		an.Region(s.fn, nil, func(o an.Occ) {
+			if r, isR := o.In.(*ssa.Range); isR {
+				if f, okF := s.base(o.Path(r.X)); okF {
+					ranged[f] = true
+				}
+			}
 			b, ok := o.In.(*ssa.BinOp)
 			if !ok {
 				return
@@ -340,6 +377,10 @@ func runFltNil(c *core.Ctx) {
 				c.Bad(s.props, fname(c, s.fn), construct, lenTests[f][0], "presence of "+f+" is tested by its length: {\""+strings.ToLower(f)+"\":[]} (present but empty, must match nothing) is treated like an absent condition")
 			case nilTests[f] > 0:
 				c.OK(s.props, fname(c, s.fn), construct, P.Pos(s.fn.Pos()), fmt.Sprintf("%d nil test(s), no length test", nilTests[f]))
+			case f == "Tags" && ranged[f]:
+				// the condition *map* is walked entry by entry: an empty map has no entry and so, like an
+				// absent one, no condition — it is the per-entry value lists whose emptiness matters
+				c.OK(s.props, fname(c, s.fn), construct, P.Pos(s.fn.Pos()), "the #x conditions are ranged over: an empty map contributes none, like an absent one")
 			default:
 				c.Bad(s.props, fname(c, s.fn), construct, P.Pos(s.fn.Pos()), "no presence test of "+f+" at all: an absent condition and an empty list are not distinguished")
 			}
@@ -853,6 +894,16 @@ func runMatchPair(c *core.Ctx) {
 	})
 	c.CountSites(2)
 	if inner == nil {
+		// the other way round: for every #x condition of the filter, some tag of the event has that
+		// name and a listed value (`for name, vals := range m.f.Tags { if !hasListedTag(tags, name, vals) { return false } }`)
+		if ok, why := conditionMajorTags(c, match, ev); ok {
+			c.OK(nil, fname(c, match), "pair(Tags)", P.Pos(match.Pos()), "a condition counts as satisfied iff some tag has its name and a value its list contains (tag[1], or \"\" for a one-element tag)")
+			c.OK(nil, fname(c, match), "all-tag-conditions", P.Pos(match.Pos()), "no match as soon as one #x condition is not satisfied; a match only after all were looked at")
+			return
+		} else if why != "" {
+			c.Bad(nil, fname(c, match), "pair(Tags)", P.Pos(match.Pos()), "tag conditions are walked one by one, but "+why)
+			return
+		}
 		c.Bad(nil, fname(c, match), "pair(Tags)", P.Pos(match.Pos()), "tag conditions are not looked up by the event tag's name (tag[0])")
 		return
 	}
@@ -1428,4 +1479,146 @@ func listCtorBody(P *core.Program, fn *ssa.Function) *ssa.Function {
 		fn = g
 	}
 	return fn
+}
+
+// conditionMajorTags: the tag phase written condition by condition. In Match's region a range over
+// the filter's condition map (name → listed values) calls, per condition, a private helper with the
+// event's tags, the name and the values; the helper answers true only on paths that found a tag whose
+// name equals the condition's and whose value the list contains; a false answer forces Match false
+// through every level; and the ranging function answers true only after the range was exhausted.
+// why != "": the form was recognised but an obligation fails.
+func conditionMajorTags(c *core.Ctx, match *ssa.Function, ev string) (bool, string) {
+	var rng *ssa.Range
+	var rngOcc an.Occ
+	an.Region(match, nil, func(o an.Occ) {
+		if r, ok := o.In.(*ssa.Range); ok && o.Path(r.X) == "recv.f.Tags" {
+			rng, rngOcc = r, o
+		}
+	})
+	if rng == nil || rng.Referrers() == nil {
+		return false, ""
+	}
+	host := rng.Parent()
+	var next *ssa.Next
+	for _, r := range *rng.Referrers() {
+		if n, ok := r.(*ssa.Next); ok {
+			next = n
+		}
+	}
+	if next == nil || next.Referrers() == nil {
+		return false, ""
+	}
+	var okEx, nameEx, valsEx *ssa.Extract
+	for _, r := range *next.Referrers() {
+		if e, ok := r.(*ssa.Extract); ok {
+			switch e.Index {
+			case 0:
+				okEx = e
+			case 1:
+				nameEx = e
+			case 2:
+				valsEx = e
+			}
+		}
+	}
+	if okEx == nil || nameEx == nil || valsEx == nil {
+		return false, "the range does not use both the condition's name and its value list"
+	}
+	// the per-condition check
+	var site *ssa.Call
+	ni, vi, ti := -1, -1, -1
+	for _, ci := range calls(host) {
+		call, ok := ci.(*ssa.Call)
+		if !ok || !an.PrivateHelper(an.StaticCallee(&call.Call)) {
+			continue
+		}
+		a, b, t := -1, -1, -1
+		for i, arg := range call.Call.Args {
+			switch {
+			case arg == ssa.Value(nameEx):
+				a = i
+			case arg == ssa.Value(valsEx):
+				b = i
+			case strings.HasSuffix(rngOcc.Path(arg), ".Tags") && strings.HasPrefix(rngOcc.Path(arg), ev):
+				t = i
+			}
+		}
+		if a >= 0 && b >= 0 && t >= 0 {
+			site, ni, vi, ti = call, a, b, t
+		}
+	}
+	if site == nil {
+		return false, "no per-condition helper is handed the event's tags, the condition's name and its values"
+	}
+	h := an.StaticCallee(&site.Call)
+	name, vals, tags := "p:"+h.Params[ni].Name(), "p:"+h.Params[vi].Name(), "p:"+h.Params[ti].Name()
+	tps, ok := an.ResultPaths(h, 0, true)
+	if !ok || len(tps) == 0 {
+		return false, "the per-condition helper never answers true"
+	}
+	for _, tp := range tps {
+		nameEq, listed := false, false
+		for _, cd := range tp.Conds {
+			cd = an.NormCond(cd)
+			if b, isB := cd.V.(*ssa.BinOp); isB && (b.Op == token.EQL) == cd.True && (b.Op == token.EQL || b.Op == token.NEQ) {
+				x, y := an.PathOf(b.X), an.PathOf(b.Y)
+				isTagName := func(p string) bool {
+					return p == tags+"[*][0]" || strings.HasSuffix(p, ".Key("+tags+"[*])")
+				}
+				if (isTagName(x) && y == name) || (isTagName(y) && x == name) {
+					nameEq = true
+				}
+			}
+			if lk := memberLookup(cd.V); lk != nil && cd.True && an.PathOf(lk.X) == vals {
+				ip := an.PathOf(lk.Index)
+				if strings.Contains(ip, tags+"[*][1]") || strings.HasSuffix(ip, ".Value("+tags+"[*])") {
+					listed = true
+				}
+			}
+		}
+		if !nameEq || !listed {
+			return false, fmt.Sprintf("the per-condition helper can answer true without a tag of the condition's name and a listed value (name compared: %v, value looked up: %v)", nameEq, listed)
+		}
+	}
+	// an unsatisfied condition forces "no match" …
+	if ok, why := forcesFailure(c, host, site); !ok {
+		return false, "an unsatisfied condition does not force 'no match': " + why
+	}
+	for i := len(rngOcc.Chain) - 1; i >= 0; i-- {
+		if ok, why := forcesFailure(c, rngOcc.Chain[i].Parent(), rngOcc.Chain[i]); !ok {
+			return false, "the tag phase's verdict does not force Match's: " + why
+		}
+	}
+	// … and "all satisfied" is only said once the range is exhausted
+	hps, ok := an.ResultPaths(host, 0, true)
+	if !ok || len(hps) == 0 {
+		return false, "the tag phase never answers true"
+	}
+	if host != match {
+		for _, hp := range hps {
+			exhausted := false
+			for _, cd := range hp.Conds {
+				if cd.V == ssa.Value(okEx) && !cd.True {
+					exhausted = true
+				}
+			}
+			if !exhausted {
+				return false, "the tag phase can answer true before every condition was looked at"
+			}
+		}
+	}
+	return true, ""
+}
+
+// memberLookup: v is m[k] of a map[K]bool (or its comma-ok value): the Lookup.
+func memberLookup(v ssa.Value) *ssa.Lookup {
+	if lk, ok := v.(*ssa.Lookup); ok {
+		return lk
+	}
+	if ex, ok := v.(*ssa.Extract); ok {
+		if lk, ok := ex.Tuple.(*ssa.Lookup); ok {
+			return lk
+		}
+	}
+	return nil
 }
